@@ -317,12 +317,72 @@ class LoopCtl:
                 self.orig[k] = v
                 pre_state[k] = v._s()
         self.pre = pre_state
+        self.alias = {}          # contract state name -> local name of the function (locals renamed by a refactoring)
+        self._match_roles()
         self.n = iterable.length()
         self.cur = None
         self.i = None
 
     def label(self, s):
         return "%s.loop%d.%s" % (self.fname, self.ordinal, s)
+
+    def _match_roles(self):
+        """A contract names the components of the loop state after the locals of the reference tree.  When such a name is
+        not a local of this function (pre-loop value unbound) but the loop works on locals the contract does not know,
+        the components are matched BY ROLE: a local whose pre-loop value provably equals the contract's state at
+        iteration 0 for that component (same kind and shape, elements equal at fresh indices) plays that component.
+        Only an unambiguous match is taken; the invariant obligations are then generated as usual, so a wrong match could
+        only make them fail (undecided), never pass."""
+        from .frontend import UNBOUND
+        from .arrays import Arr
+        names = getattr(self.spec, "state_names", None)
+        if not names:
+            return
+        missing = [c for c in names if self.pre.get(c, UNBOUND) is UNBOUND]
+        if not missing:
+            return
+        free = [a for a, v in self.pre.items() if a not in names and v is not UNBOUND]
+        if not free:
+            return
+        try:
+            st0 = self.spec.state_at(self, sym.Num(0))
+        except Exception:
+            return
+        run = self.run
+
+        def same(x, y):
+            if isinstance(x, Arr) and isinstance(y, Arr):
+                if x.ndim != y.ndim or any(ax.masked or ay.masked for ax, ay in zip(x.axes, y.axes)):
+                    return False
+                cs = [sym.fresh_int("role_ix") for _ in range(x.ndim)]
+                rng = sym.SBool(True)
+                for c, ax, ay in zip(cs, x.axes, y.axes):
+                    if not run.feasible(sym.sbool(ax.size == ay.size).z()) or run.feasible(sym.sbool(ax.size != ay.size).z()):
+                        return False
+                    rng = rng & (c >= 0) & (c < ax.size)
+                from .loops import scalar_eq
+                eq = scalar_eq(x.at(*cs), y.at(*cs))
+                return not run.feasible(z3.And(sym.sbool(rng).z(), z3.Not(sym.sbool(eq).z())))
+            if isinstance(x, Arr) or isinstance(y, Arr):
+                return False
+            try:
+                from .loops import scalar_eq
+                return not run.feasible(z3.Not(sym.sbool(scalar_eq(x, y)).z()))
+            except Exception:
+                return False
+        for c in missing:
+            if c not in st0:
+                continue
+            try:
+                cands = [a for a in free if a not in self.alias.values() and same(self.pre[a], st0[c])]
+            except Exception:
+                cands = []
+            if len(cands) == 1:
+                self.alias[c] = cands[0]
+        for c, a in self.alias.items():
+            self.pre[c] = self.pre[a]
+            if a in self.orig:
+                self.orig[c] = self.orig[a]
 
     def iterate(self):
         run = self.run
@@ -345,8 +405,11 @@ class LoopCtl:
     def _pick(self, st, names):
         from .frontend import UNBOUND
         out = []
+        back = {a: c for c, a in self.alias.items()}
         for k in names:
-            if k in st:
+            if k in back and back[k] in st:
+                out.append(st[back[k]])
+            elif k in st:
                 out.append(st[k])
             elif self.pre.get(k, UNBOUND) is UNBOUND:
                 out.append(POISON)
@@ -390,6 +453,10 @@ class LoopCtl:
                                 "contract summarises" % (self.ordinal, self.fname, getattr(obj, "name", None) or type(obj).__name__))
 
     def step(self, new_state):
+        for c, a in self.alias.items():
+            if a in new_state:
+                new_state = dict(new_state)
+                new_state[c] = new_state[a]
         self._frame_check(new_state)
         self.spec.on_step(self, new_state)
         raise EndPath()
